@@ -110,6 +110,22 @@ func (f *File) syncWithoutLocking() error {
 	}
 
 	if f.writeBuf != nil {
+		// Don't resurrect a file that has been removed while it was open
+		if _, err := inventory.Stat(
+			f.metadata,
+
+			f.path,
+			false,
+
+			f.onHeader,
+		); err != nil {
+			if err == sql.ErrNoRows {
+				return os.ErrNotExist
+			}
+
+			return err
+		}
+
 		done := false
 		if _, err := f.writeOps.Update(
 			func() (config.FileConfig, error) {
